@@ -90,7 +90,8 @@ impl DailyLogsUpdate {
                         SELECT max(date) from _daily_log 
                         WHERE 
                             daily.room_id = room_id AND
-                            daily.entity = entity
+                            daily.entity = entity AND
+                            daily_hash IS NOT NULL
                         AND date < (
                             SELECT min(date) from _daily_log 
                             WHERE 
@@ -171,24 +172,52 @@ impl DailyLogsUpdate {
             ",
         )?;
 
-        let mut rows = daily_log_stmt.query([])?;
+        let mut delete_empty_stmt = conn.prepare_cached(
+            "
+            DELETE FROM _daily_log 
+            WHERE
+                room_id = ? AND
+                entity = ? AND
+                date = ?
+            ",
+        )?;
+
+        //the rows are read before the loop: they are updated while being processed
+        //and an open cursor on _daily_log could return an updated row a second time
+        type LogRow = (Uid, String, i64, bool, Option<Vec<u8>>, Option<Vec<u8>>);
+        let mut log_rows: Vec<LogRow> = Vec::new();
+        {
+            let mut rows = daily_log_stmt.query([])?;
+            while let Some(row) = rows.next()? {
+                log_rows.push((
+                    row.get(0)?,
+                    row.get(1)?,
+                    row.get(2)?,
+                    row.get(3)?,
+                    row.get(4)?,
+                    row.get(5)?,
+                ));
+            }
+        }
 
         let mut previous_room: Uid = [0; 16];
         let mut previous_entity: String = "-".to_string();
         let mut previous_hash: Option<Vec<u8>> = None;
         let mut previous_history: Option<Vec<u8>> = None;
+        //true when a row of the current room and entity has already been recomputed
+        let mut recomputed_before = false;
 
-        while let Some(row) = rows.next()? {
-            let room: Uid = row.get(0)?;
-            let entity: String = row.get(1)?;
-            let date: i64 = row.get(2)?;
-            let need_recompute: bool = row.get(3)?;
+        for (room, entity, date, need_recompute, daily_hash, history_hash) in log_rows {
 
-            let daily_hash: Option<Vec<u8>> = row.get(4)?;
-            let history_hash: Option<Vec<u8>> = row.get(5)?;
+            //the history is chained per room and entity
+            if !(previous_room.eq(&room) && previous_entity.eq(&entity)) {
+                previous_hash = None;
+                previous_history = None;
+                recomputed_before = false;
+            }
 
             if !need_recompute {
-                if previous_room.eq(&room) && previous_entity.eq(&entity) {
+                if daily_hash.is_some() {
                     if let Some(previous) = &previous_history {
                         let mut hasher = blake3::Hasher::new();
                         hasher.update(previous);
@@ -199,17 +228,19 @@ impl DailyLogsUpdate {
                         // update
                         update_history_stmt.execute((&hash, &room, &entity, date))?;
                         previous_history = Some(hash);
+                    } else if recomputed_before {
+                        //the days before this one have been emptied: it is now the first date of the room and entity
+                        update_history_stmt.execute((&daily_hash, &room, &entity, date))?;
+                        previous_history = daily_hash.clone();
                     } else {
+                        //first row of the chain that is read: everything before it is unchanged
                         previous_history = history_hash;
                     }
                     previous_hash = daily_hash;
-                } else {
-                    previous_hash = None;
-                    previous_history = None;
                 }
-                previous_room = room;
-                previous_entity = entity;
+                //a row without entries takes no part in the history
             } else {
+                recomputed_before = true;
                 let mut comp_rows =
                     compute_stmt.query((&room, &entity, date, date_next_day(date)))?;
 
@@ -222,15 +253,22 @@ impl DailyLogsUpdate {
                     entry_number += 1;
                 }
 
-                let daily_hash = if hasher.count() == 0 {
-                    None
+                if entry_number == 0 {
+                    //nothing is stored for this day anymore: the log must not remember that something was
+                    delete_empty_stmt.execute((&room, &entity, date))?;
+                    self.add_log(DailyLog {
+                        room_id: room,
+                        entity: entity.clone(),
+                        date,
+                        entry_number,
+                        daily_hash: None,
+                        history_hash: None,
+                        need_recompute: false,
+                    });
                 } else {
-                    let hash = hasher.finalize();
-                    Some(hash.as_bytes().to_vec())
-                };
+                    let daily_hash = Some(hasher.finalize().as_bytes().to_vec());
 
-                let history_hash = if previous_room.eq(&room) {
-                    if let Some(previous) = &previous_history {
+                    let history_hash = if let Some(previous) = &previous_history {
                         let mut hasher = blake3::Hasher::new();
                         hasher.update(previous);
                         if let Some(daily) = &previous_hash {
@@ -239,36 +277,34 @@ impl DailyLogsUpdate {
                         let hash = hasher.finalize().as_bytes().to_vec();
                         Some(hash)
                     } else {
-                        None
-                    }
-                } else {
-                    //this is the first room date
-                    daily_hash.clone()
-                };
+                        //this is the first date of the room and entity
+                        daily_hash.clone()
+                    };
 
-                update_computed_stmt.execute((
-                    entry_number,
-                    &daily_hash,
-                    &history_hash,
-                    &room,
-                    &entity,
-                    date,
-                ))?;
+                    update_computed_stmt.execute((
+                        entry_number,
+                        &daily_hash,
+                        &history_hash,
+                        &room,
+                        &entity,
+                        date,
+                    ))?;
 
-                self.add_log(DailyLog {
-                    room_id: room,
-                    entity: entity.clone(),
-                    date,
-                    entry_number,
-                    daily_hash: daily_hash.clone(),
-                    history_hash: history_hash.clone(),
-                    need_recompute: false,
-                });
-                previous_hash = daily_hash;
-                previous_history = history_hash;
-                previous_room = room;
-                previous_entity = entity;
+                    self.add_log(DailyLog {
+                        room_id: room,
+                        entity: entity.clone(),
+                        date,
+                        entry_number,
+                        daily_hash: daily_hash.clone(),
+                        history_hash: history_hash.clone(),
+                        need_recompute: false,
+                    });
+                    previous_hash = daily_hash;
+                    previous_history = history_hash;
+                }
             }
+            previous_room = room;
+            previous_entity = entity;
         }
         Ok(())
     }
